@@ -161,6 +161,17 @@ pub fn aigify(gate: &GateModule) -> AigModule {
         let edge = lower_net(&mut aig, gate, net);
         aig.add_sink(net, edge);
     }
+    // FF clock and reset pins are consumed nets as well: a gated clock or a
+    // combined reset is combinational logic that must survive the round
+    // trip. They follow the RAM inputs, FF by FF: clock, then reset (if any).
+    for ff in &gate.ffs {
+        let edge = lower_net(&mut aig, gate, ff.clock);
+        aig.add_sink(ff.clock, edge);
+        if let Some(reset) = &ff.reset {
+            let edge = lower_net(&mut aig, gate, reset.net);
+            aig.add_sink(reset.net, edge);
+        }
+    }
 
     aig
 }
@@ -298,7 +309,8 @@ pub fn aig_to_cells(aig: &AigModule, original: &GateModule) -> GateModule {
     for (i, sink) in aig.sinks.iter().enumerate() {
         let src_net = resolve_fanin(&mut out, &mut pos_net, &mut neg_net, sink.edge);
         if i >= port_out_count + ff_count {
-            // RAM input: collected here, rewired below in the same order.
+            // RAM input / FF clock / FF reset: collected here, rewired
+            // below in the same order.
             ram_input_nets.push(src_net);
         } else if i < port_out_count {
             let target = sink.target;
@@ -325,6 +337,16 @@ pub fn aig_to_cells(aig: &AigModule, original: &GateModule) -> GateModule {
             *n = src;
         }
     });
+    for ff in out.ffs.iter_mut() {
+        if let Some(src) = ram_input_iter.next() {
+            ff.clock = src;
+        }
+        if let Some(reset) = ff.reset.as_mut()
+            && let Some(src) = ram_input_iter.next()
+        {
+            reset.net = src;
+        }
+    }
 
     out
 }
